@@ -502,3 +502,19 @@ proj_harness!(c10_gap_bound_ping_outstanding, 8, {
         assert!(acted, "KF:F10/short-keepalive-gap C10: with keep-alive < 5 s and a PINGREQ outstanding nothing is sent between t + keep-alive and t + 5 s (gap between client packets exceeds the keep-alive)");
     }
 });
+
+/// A4' stub for the free function `fill_packet_reader` (handshake harnesses): the framing is the
+/// subject of c15_read_packet_commits_and_latches; here it either delivers a packet or fails.
+pub(crate) static mut FILL_OUTCOME: u8 = 0; // 0 ok, 1 end of stream, 2 oversize
+pub(crate) static mut FILL_CALLS: u8 = 0;
+pub(crate) fn st_fill_packet_reader<'buf, C: Io>(_packet_reader: &mut PacketReader<'buf>, _connection: &mut C) -> Result<(), Error<C::Error>> {
+    unsafe {
+        FILL_CALLS += 1;
+        g::log(g::E_IO_READ);
+        match FILL_OUTCOME {
+            0 => Ok(()),
+            1 => Err(Error::Disconnected),
+            _ => Err(Error::Peer(PeerError::InvalidPacket)),
+        }
+    }
+}
